@@ -123,7 +123,7 @@ class Builtins:
             "isinstance": self.b_isinstance, "len": self.b_len,
             "sum": self.b_sum, "any": self.b_any, "all": self.b_all,
             "enumerate": self.b_enumerate, "zip": self.b_zip, "range": self.b_range,
-            "round": self.b_round, "hash": self.b_hash, "sorted": self.b_sorted,
+            "round": self.b_round, "hash": self.b_hash, "sorted": self.b_sorted, "id": self.b_id,
             "repr": self.b_str,
         }
         if name in table:
@@ -440,12 +440,13 @@ class Builtins:
         return ta == tb
 
     def dict_equals(self, a, b):
-        if isinstance(a.base, NumBase) and isinstance(b.base, NumBase) and not a.entries and not b.entries:
-            k = z3.Const("k!dict_eq", sym.Name)
-            return z3.And(a.base.present == b.base.present,
-                          z3.ForAll([k], z3.Implies(z3.Select(a.base.present, k),
-                                                    z3.Select(a.base.vals, k) == z3.Select(b.base.vals, k))))
-        raise Unsupported("dict equality")
+        """Equality of two Name->number dicts.  Representation convention: the value array of
+        a symbolic dict is 0 outside its presence set (no code path reads a value without
+        the presence test), so dict equality is equality of both arrays - quantifier-free."""
+        from . import hashing
+        pa, va = hashing.items_arrays(self.I, a)
+        pb, vb = hashing.items_arrays(self.I, b)
+        return z3.And(pa == pb, va == vb)
 
     def contains(self, container, key):
         if isinstance(container, SDict):
@@ -744,6 +745,14 @@ class Builtins:
         return r
 
     def b_tuple(self, a, k):
+        from . import hashing
+        if a and isinstance(a[0], hashing.SortedItems):
+            return a[0]              # tuple(sorted(items)): still a function of the item set
+        if a and isinstance(a[0], DictView) and a[0].d.base is not None:
+            d = a[0].d
+            if not hasattr(d, "order_ghost"):
+                d.order_ghost = self.path.fresh("dict-order", sym.I)
+            return hashing.OrderTainted(d, d.order_ghost)
         return tuple(self.iterate(a[0])) if a else ()
 
     def b_dict(self, a, k):
@@ -759,6 +768,14 @@ class Builtins:
 
     def b_str(self, a, k):
         return self.to_str(a[0])
+
+    def b_id(self, a, k):
+        v = a[0]
+        if isinstance(v, Obj):
+            if "id" not in v.ghost:
+                v.ghost["id"] = z3.Int(f"id[{v.name}]")
+            return SNum(v.ghost["id"], True)
+        return SNum(self.path.fresh("id", sym.I), True)
 
     def b_hash(self, a, k):
         from . import hashing
